@@ -1,6 +1,6 @@
 SPECIFICATION Spec
 CONSTANTS
-  MaxPeer = 3
+  MaxPeer = 4
   MaxLocal = 3
   MaxDial = 2
   MaxGReq = 2
